@@ -259,7 +259,7 @@ def run(ctx):
         if fam == "smoothedlaplace" and len(p[1]) == 1 and n > 1:
             k += ":scalar-scale:dim>1"
         elif fam == "uniform" and n > 1 and len(p[0]) == 1 and len(p[1]) == 1 and "a" in modes[:2]:
-            k += ":len1-array-bounds:dim>1"
+            k += ":len1-array-bounds:dim>1"       # repaired in /repo (39cce69); class kept in the generator
         elif fam == "uniform" and "l" in modes[:2]:
             k += ":list-bounds"
         elif fam == "normal" and modes[1] == "l":
@@ -956,6 +956,6 @@ def quadrature_section(ctx, D, G, rng, S):
                 opts["points"] = [0.0]
             total = integrate.nquad(lambda x_, y: f(y, x_), [box, box], opts=[opts, opts])[0]
         ctx.case("quadrature-2d", {"family": name})
-        key = {"Uniform:len1-array-bounds": "Uniform:logpdf:len1-array-bounds:dim>1"}.get(name, f"{name}:normalisation:dim2")
+        key = f"{name}:normalisation:dim2"
         if not close(total, 1.0, 1e-5):
             ctx.fail(key, {"family": name}, 1.0, total, "exp(logpdf) does not integrate to one over the support (dimension 2)")
